@@ -142,7 +142,7 @@ class AssertFormulaInModel:
     """
 
     def __init__(self, model, formula):
-        if formula not in model:
+        if formula not in model.graph:
             raise Exception(f"{formula} is not a stored formula, can't set facts")
 
 
